@@ -36,6 +36,7 @@ CHECKS = {
     "C06": ("other", "DESIGN.md#c06", "Bounded symbolic equivalence of RydbergHamiltonian.__mul__ and RydbergLindbladian.__matmul__ with the dense Hamiltonian / GKSL generator for all real drive values, symbolic jump operators and arbitrary complex inputs; both phase paths and both matmul paths; N<=3 (quick) / N<=4 (thorough).", TECH_S, NOTE_S),
     "C07": ("other", "DESIGN.md#107-c07-c08-partial", "Part (the honesty half only): with the operator and torch.linalg.matrix_exp as stubs and symbolic tolerances, `converged`/`happy_breakdown` are reported exactly when an iteration met the residual-norm or error-estimate criterion, the public entry point raises exactly when not converged and returns no vector otherwise, and the returned vector is |v| sum_k exp(T)[k,0] q_k (dim<=3, <=3 iterations, Lanczos and Arnoldi). The accuracy bound (result = exp(A)v within 10*tol) is an analytic floating-point claim and is NOT decided.", TECH_M, NOTE_M),
     "C08": ("other", "DESIGN.md#107-c07-c08-partial", "Part (bookkeeping only): with the operator and torch.linalg.eigh as stubs and symbolic tolerances: unit norm of the returned vector, returned energy is the lowest Ritz value of one projected problem, converged-without-breakdown implies reported residual < tolerance, restart/iteration accounting, the public entry point raises exactly when neither converged nor broke down. Variational bound, Rayleigh-quotient and residual identities are exact-Lanczos/LAPACK facts and are NOT decided.", TECH_M, NOTE_M),
+    "C09": ("other", "DESIGN.md#107-c07-c08-partial", "Part (control logic only): DMRG sweeps visit every bond in order with the right centre moves and bath bookkeeping, a time step completes exactly after the first full sweep whose final energy moved by less than the tolerance, RuntimeError exactly when max_sweeps sweeps did not converge, every sweep re-centres on site 0 (N<=5, <=3 sweeps, local minimiser as a stub with solver-chosen energies; the local problem itself is decided under C02). Energy quality, normalisation and canonical form are NOT decided.", TECH_M, NOTE_M),
     "C10": ("other", "DESIGN.md#c10", "Part: cutoff index, rank cap, discarded-weight budget (not lazier than allowed), kept = largest eigenvalues, preserve_norm factor, bond visiting order and caps, centre bookkeeping, for symbolic ascending spectra (k<=6) with eigh/qr as contract stubs. Orthonormality itself needs LAPACK and is outside.", TECH_S, NOTE_S),
     "C11": ("other", "DESIGN.md#c11", "Part: every QR/eigh-free MPS/MPO operation (add, scale, inner, overlap, norm of the centre, make, MPO.expect/add/rmul, from_operator_repr, from_state_amplitudes' key mapping, baths, traces) equals its dense counterpart for symbolic factors (N<=3, chi<=2, d=2/3) and leaves operands unchanged; expect_batch/correlation/apply on product states through a sound one-column QR stub.", TECH_S, NOTE_S),
     "C12": ("other", "DESIGN.md#c12", "Full within bounds: StateVector/DensityMatrix/DenseOperator/SparseOperator constructors and algebra equal their Kronecker / linear-algebra definitions for symbolic complex entries, forked basis strings and operator representations, N<=3 (amplitude placement to N=8); dense = sparse.", TECH_S, NOTE_S),
@@ -61,7 +62,6 @@ CHECKS = {
 }
 
 NOT_APPLICABLE = {
-    "C09": "DMRG ground-state quality depends on C08 and on sweep convergence in floating point; not encodable.",
     "C17": "Statistical convergence of trajectory averages; needs the RNG and the full numeric evolution. Its deterministic ingredients are decided under C05, C18, C24.",
     "C28": "Norm/energy conservation of the floating-point propagators (TDVP sweeps with Krylov steps and truncation); the exact-arithmetic ingredient (Hermiticity of H) is a lemma checked under C05/C06.",
     "C31": "A finite compatibility matrix of third-party releases decided by running the package; there is no input to make symbolic and only pulser-core 1.9.1 exists offline.",
